@@ -27,7 +27,8 @@ def concrete(ka, da):
     elif d == 'dist':
         dist = stats.norm(loc=10.0 * da['dtag'] + 0.5, scale=0.001)
     elif d == 'number':
-        dist = float(da['dtag'])
+        # fixed numbers come as python floats, numpy integers and numpy float32 in turn (all are numbers.Number)
+        dist = [float, np.int64, np.float32][da['dtag'] % 3](da['dtag'])
     elif d == 'link':
         dist = da['dto']
     else:
